@@ -15,5 +15,5 @@ for c in "$@"; do
   [ $code -eq 1 ] && rc=1
 done
 rm -rf "$SCR"
-# the checks rewrote evidence for the scratch tree: they must be re-run against /repo before committing evidence
+# evidence of scratch runs goes to replays/scratch-evidence (not committed)
 exit $rc
